@@ -50,6 +50,9 @@ def run(db, rep, tier):
     rep.rule("R11-rebuilt-and-counted", "DHCP rebuilds its option area from the option list on every serialisation (no size-based cache "
                                         "test); RSNInformation writes, in front of each suite list, that list's own element count", 3)
     r11(db, rep)
+    rep.rule("R12-pad-tolerance", "an encoder that rounds its option up to an even length has a decoder that accepts the pad octet "
+                                  "(802.11 Country element)", 1)
+    r12(db, rep)
     rep.explanation = ("Structural part of C04: item-level agreement of typed option encoders and decoders (R1), one code per accessor pair (R2), "
                        "cached sizes follow add/remove (R3), first-match lookup and exact removal (R4), one storage predicate in PDUOption (R5). "
                        "NOT decided: the shadow-model clause over arbitrary edit histories, computed length bytes (IPv6 length_field()/8, DNS "
@@ -754,3 +757,63 @@ def r11(db, rep):
                           "reads the wrong number of suites" % (conts[0], t[:70], conts[0]))
     if n < 2:
         rep.analysis_broken("RSNInformation::serialize: the two (count, list) pairs were not recognised (%d)" % n)
+
+
+def r12(db, rep):
+    from vlib import ieval
+    MG = "Tins::Dot11ManagementFrame"
+    enc = [f for f in db.fns_named(MG + "::country") if f.get("body") and len(f["params"]) == 1]
+    dec = [f for f in db.fns_named(MG + "::country_params::from_option") if f.get("body")]
+    if not enc or not dec:
+        rep.analysis_broken("Dot11ManagementFrame::country / country_params::from_option vanished")
+        return
+    e, d = enc[0], dec[0]
+    key = "country:pad-octet"
+    pads = [x for x in facts.fn_nodes(e) if x["k"] == "IfStmt" and "& 1" in facts.expr_str([y for y in x["c"] if y is not None][0]) and
+            any(y["k"] in ("UnaryOperator", "CompoundAssignOperator") and y.get("op") in ("++", "+=") for y in facts.walk(x))]
+    if not pads:
+        rep.ok("R12-pad-tolerance", key, facts.loc(e), "the encoder does not pad: nothing to tolerate")
+        return
+    loops = [x for x in facts.fn_nodes(d) if x["k"] in ("WhileStmt", "ForStmt")]
+    if not loops:
+        rep.analysis_broken("country_params::from_option: triplet loop not found")
+        return
+    top = d["body"].get("c", [])
+    after = False
+    bad = None
+    checked = 0
+    for st in top:
+        if st is loops[0] or any(y is loops[0] for y in facts.walk(st)):
+            after = True
+            continue
+        if not after or st["k"] != "IfStmt":
+            continue
+        real = [x for x in st["c"] if x is not None]
+        if not any(y["k"] == "CXXThrowExpr" for y in facts.walk(real[1])):
+            continue
+        checked += 1
+
+        def tf(x):
+            # one octet is left: end - ptr == 1
+            if x["k"] == "BinaryOperator":
+                l, r = facts.strip_all(x["c"][0]), facts.strip_all(x["c"][1])
+                names = (l.get("name"), r.get("name"))
+                if x.get("op") in ("!=", "==") and set(names) == {"ptr", "end"}:
+                    return 1 if x["op"] == "!=" else 0
+                if x.get("op") == "-" and names == ("end", "ptr"):
+                    return 1
+                if x.get("op") == "<" and names == ("ptr", "end"):
+                    return 1
+            return None
+        try:
+            if ieval.ev(d, real[0], {"__termfn__": tf}):
+                bad = st
+        except ieval.Unknown as ex:
+            rep.analysis_broken("country_params::from_option: trailing check outside the evaluator: %s" % ex)
+            return
+    if bad is not None:
+        rep.violation("R12-pad-tolerance", key, facts.loc(d, bad),
+                      "country() pads the element to an even length, but from_option() throws malformed_option when one octet is left after the "
+                      "last triplet: a country element with an even number of triplets (0, 2, 4 ...) cannot be read back")
+    else:
+        rep.ok("R12-pad-tolerance", key, facts.loc(d, loops[0]), "a single pad octet after the last triplet is accepted (%d trailing check(s))" % checked)
